@@ -4,7 +4,9 @@ import (
 	"errors"
 	"fmt"
 	"math/rand"
+	"runtime"
 	"strings"
+	"sync"
 
 	"github.com/junioryono/godi/v4/internal/graph"
 	"github.com/junioryono/godi/v4/verifh/eng"
@@ -185,7 +187,7 @@ func init() {
 			"depths are compared only on graphs the reference knows to be acyclic",
 			"exact in/out degrees are compared only when no provider lists the same dependency twice; zero/non-zero (roots, leaves) always",
 		},
-		NeedEvents: []string{"compared_states", "add", "defer", "remove"},
+		NeedEvents: []string{"compared_states", "add", "defer", "remove", "concurrent_sort_vs_mutation_rounds"},
 	})
 }
 
@@ -256,6 +258,7 @@ func runC19(c *eng.Ctx) {
 	for k, v := range stats {
 		c.R.Count(k, v)
 	}
+	runC19Concurrent(c, func() (int, bool) { i := caseIdx; caseIdx++; return i, c.Mine(i) })
 }
 
 func randomSeq(rng *rand.Rand, u []Ident, n int) []Op {
@@ -287,4 +290,104 @@ func randomSeq(rng *rand.Rand, u []Ident, n int) []Op {
 		}
 	}
 	return ops
+}
+
+// ---- concurrent use of the graph (it carries its own lock) -----------------------------
+//
+// One goroutine asks for the topological order of a large graph whose cache is dirty while
+// another one mutates the graph. Afterwards (quiescent again) the reference digraph has
+// received the same mutation and every answer must agree with it: a cached order that
+// predates the mutation is a stale answer.
+
+type bigIdent struct{ n int }
+
+func runC19Concurrent(c *eng.Ctx, alloc func() (int, bool)) {
+	rounds := c.Pick(16, 96)
+	const nNodes = 30000
+	// a big universe: one type, int keys
+	u := make([]Ident, nNodes+8)
+	for i := range u {
+		u[i] = Ident{Name: fmt.Sprintf("n%d", i), Type: Universe[0].Type, Key: i}
+	}
+	for k := 0; k < rounds; k++ {
+		idx, mine := alloc()
+		if !mine {
+			continue
+		}
+		c.R.Begin(idx)
+		g := graph.NewDependencyGraphWithCapacity(nNodes)
+		ref := NewRef()
+		rng := rand.New(rand.NewSource(c.Seed*31 + int64(k)))
+		for i := 0; i < nNodes; i++ {
+			var deps []int
+			if i > 0 {
+				deps = append(deps, rng.Intn(i))
+				if i > 10 && rng.Intn(3) == 0 {
+					deps = append(deps, rng.Intn(i))
+				}
+			}
+			_ = g.AddProviderDeferred(NewProvider(u, i, deps, i+1))
+			ref.Add(i, deps, i+1)
+		}
+		if err := g.DetectCycles(); err != nil {
+			c.R.Violation(eng.Violation{Prop: "C19", Clause: "detect-cycles", Sig: "C19/detect-cycles:big-dag", Case: idx, CaseID: "concurrent", Detail: "DetectCycles reports a cycle in a forward-edge DAG: " + err.Error()})
+			c.R.End(idx, eng.Hash("c19-conc", k), false)
+			continue
+		}
+		start := make(chan struct{})
+		var wg sync.WaitGroup
+		var sorted []*graph.Node
+		var sortErr error
+		wg.Add(2)
+		go func() { defer wg.Done(); <-start; sorted, sortErr = g.TopologicalSort() }()
+		extra := nNodes + k%8
+		mutKind := k % 3
+		go func() {
+			defer wg.Done()
+			<-start
+			for i := 0; i < 1+k%5; i++ {
+				runtime.Gosched()
+			}
+			switch mutKind {
+			case 0:
+				_ = g.AddProvider(NewProvider(u, extra, []int{nNodes - 1}, extra+1))
+			case 1:
+				_ = g.AddProviderDeferred(NewProvider(u, extra, []int{0, nNodes / 2}, extra+1))
+			default:
+				id := u[nNodes-1]
+				g.RemoveProvider(id.Type, id.Key, id.Group)
+			}
+		}()
+		close(start)
+		wg.Wait()
+		switch mutKind {
+		case 0:
+			ref.Add(extra, []int{nNodes - 1}, extra+1)
+		case 1:
+			ref.Add(extra, []int{0, nNodes / 2}, extra+1)
+			_ = g.DetectCycles() // documented completion of the deferred add
+		default:
+			ref.Remove(nNodes - 1)
+		}
+		_ = sorted
+		// quiescent: the answers must describe the graph that now exists
+		var msg string
+		if sortErr != nil && mutKind != 1 {
+			// (a sort that overlaps a DEFERRED add may see it before its documented completion
+			// by DetectCycles; only the immediate mutations leave the graph queryable at all times)
+			msg = "TopologicalSort (concurrent with a mutation) failed on an acyclic graph: " + sortErr.Error()
+		} else if g.Size() != len(ref.nodes) {
+			msg = fmt.Sprintf("Size()=%d, reference has %d nodes", g.Size(), len(ref.nodes))
+		} else if after, err := g.TopologicalSort(); err != nil {
+			msg = "TopologicalSort after the mutation failed: " + err.Error()
+		} else {
+			msg = CheckTopo(after, ref, u)
+		}
+		if msg != "" {
+			c.R.Violation(eng.Violation{Prop: "C19", Clause: "stale-answer-after-concurrent-mutation", Sig: "C19/stale-answer-after-concurrent-mutation:toposort-vs-" + []string{"add", "deferred-add", "remove"}[mutKind], Case: idx, CaseID: "concurrent",
+				Detail: fmt.Sprintf("TopologicalSort on a dirty %d-node graph overlapped one %s; afterwards (quiescent): %s", nNodes, []string{"AddProvider", "AddProviderDeferred+DetectCycles", "RemoveProvider"}[mutKind], msg)})
+		}
+		c.R.Count("concurrent_sort_vs_mutation_rounds", 1)
+		c.R.End(idx, eng.Hash("c19-conc", k), true)
+	}
 }
